@@ -88,7 +88,7 @@ Definition check_case (c : case) : bool :=
   end.
 
 (* a 2-4 byte unit (one multi-byte UTF-8 character) repeated n times *)
-Definition rpb (u : bytes) (n : N) : bytes := concat (repeat u (N.to_nat n)).
+Definition rpb (u : bytes) (n : N) : bytes := List.concat (repeat u (N.to_nat n)).
 
 (* {0: None, 1: None, ..., n-1: None} *)
 Fixpoint intmap_from (k : nat) (i : Z) : list (value * value) :=
